@@ -307,10 +307,24 @@ func (w *world) query(q Query, metric string) (map[string]float64, error) {
 }
 
 func (w *world) queryOnce(q Query, metric string) (map[string]float64, error) {
-	r := ranges[q.Range]
+	return w.queryText(q.sql(metric), q.Range)
+}
+
+// querySQL runs a literal statement over the whole first family (a timed-out query is asked once more).
+func (w *world) querySQL(sql string) (map[string]float64, error) {
+	out, err := w.queryText(sql, 0)
+	if err != nil && isTimeout(err) {
+		w.slowQueries++
+		out, err = w.queryText(sql, 0)
+	}
+	return out, err
+}
+
+func (w *world) queryText(sql string, rangeIdx int) (map[string]float64, error) {
+	r := ranges[rangeIdx]
 	tr := timeutil.TimeRange{Start: w.base + r.start, End: w.base + r.end}
 	t0 := time.Now()
-	res := w.box.Query(q.sql(metric), tr, vbox.Layout{Leaves: []vbox.Leaf{{Node: "10.0.0.1:2891", Shards: []models.ShardID{shardID}}}, CompleteAt: -1})
+	res := w.box.Query(sql, tr, vbox.Layout{Leaves: []vbox.Leaf{{Node: "10.0.0.1:2891", Shards: []models.ShardID{shardID}}}, CompleteAt: -1})
 	w.queryNs += time.Since(t0).Nanoseconds()
 	w.queries++
 	if res.Err != nil {
